@@ -3,13 +3,17 @@
  * on the hand-linked topology of vp_mini.h (Machine, 2 Packages, PUs 0,1,2,5, 2 NUMA nodes). Diagnostics (asprintf of sets, fprintf) are not the subject: stubbed.
  * Process-level behaviour (exit statuses, option parsing, output formats) is outside.
  */
-#ifdef FIX_S2
+#if defined(FIX_S2) && !defined(FIX_SEED)
+#define FIX_SEED 2
+#endif
+#ifdef FIX_SEED
 /* the nested-NUMA template runs on seed S2 built by the real core: package 0 holds NUMA#0, and a CPU-less NUMA#2 hangs off
  * the machine — only the NODESET of the selected parent tells that NUMA#2 is not inside package 0 */
-#define SEED 2
+/* FIX_SEED 10: S1 with ONE NUMA node attached to the machine: the node is not inside any package, it only intersects them */
+#define SEED FIX_SEED
 #include "vp_seed.h"
 #include <ctype.h>
-static struct hwloc_topology *fixture_build(void) { return vp_seed_build(2, 0); }
+static struct hwloc_topology *fixture_build(void) { return vp_seed_build(FIX_SEED, 0); }
 #define FIX_CPUS vp_seed.cpus
 #define FIX_NODES vp_seed.nodes
 #else
